@@ -256,3 +256,11 @@ Definition qcrit_closed (P : list jnode -> Prop) : Prop :=
   forall pool next pool', P pool -> jwf pool -> (3 <= length pool)%nat -> ~ In next (jids pool) ->
     nj_step pool (Z.of_nat (length pool)) next = Ok pool' -> P pool'.
 
+
+(* ---- ultrametric rose trees ---- *)
+(* every leaf taxon is at the same distance h (units) below the root of t *)
+Definition equidistant (h : Z) (t : tree) : Prop :=
+  forall a, has a t = true -> exists s, down a t = Some (h, s).
+
+(* no negative edge length anywhere in t *)
+Definition nonneg_lengths (t : tree) : Prop := forall n, In n (preorder t) -> 0 <= len0 n.
